@@ -523,7 +523,7 @@ theorem Applies.closure_inv {σ lam cenv args env r σ'} (h : Applies σ (.closu
            (∃ fv σ₂, Evals σ₁ tenv f (.ok fv) σ₂ ∧
               ((∃ er, EvalsArgs σ₂ tenv targs (.error er) σ' ∧ r = .error er) ∨
                (∃ vs σ₃, EvalsArgs σ₂ tenv targs (.ok vs) σ₃ ∧
-                  ((procArity fv = none ∧ r = .error (.nonProcedure, none) ∧ σ' = σ₃) ∨
+                  ((procArity fv = none ∧ r = .error (.nonProcedure, f.loc) ∧ σ' = σ₃) ∨
                    ((procArity fv).isSome ∧ Applies σ₃ fv vs env r σ'))))))))) := by
   obtain ⟨hr, N, hN⟩ := h.out
   clear h
